@@ -319,7 +319,7 @@ class C12(Spec):
         quick = tier == 'quick'
         cs = []
         plan = [('seq', 7, 260), ('map', 4, 220), ('str', 4, 220), ('view', 3, 200), ('misc', 2, 200)] if quick else \
-               [('seq', 60, 900), ('map', 30, 900), ('str', 30, 900), ('view', 24, 700), ('misc', 12, 600)]
+               [('seq', 180, 900), ('map', 90, 900), ('str', 90, 900), ('view', 72, 700), ('misc', 36, 600)]
         for fam, ncases, nops in plan:
             for k in range(ncases * boost):
                 ml = 8 if k % 3 else (3 if k % 2 else 20)
